@@ -62,7 +62,10 @@ def pair_job(C, name, c1, c2, nl, newvars, maxcl, exprs_cap, str_cap, tmo=3000, 
         if c == 'eq':
             return ('  struct smt_lit l%d, r%d; __CPROVER_assume(sp_var(l%d) < s.assigns.n && sp_var(r%d) < s.assigns.n);\n'
                     '  xt_recu(%d, l%d.x); xt_recu(%d, r%d.x);\n' % (i, i, i, i, b, i, b + 1, i))
-        return '  struct vec_lit ls%d; __CPROVER_assume(sp_lits_ok(s.assigns, ls%d, %d)); sp_rec_lits(%d, ls%d);\n' % (i, i, nl, b, i)
+        und = ''
+        if open_roots:   # literals of undecided variables only (variable 0 is the constant)
+            und = ' for (int k = 0; k < %d; k++) __CPROVER_assume(k >= ls%d.n || sp_var(ls%d.e[k]) >= 1);' % (nl, i, i)
+        return '  struct vec_lit ls%d; __CPROVER_assume(sp_lits_ok(s.assigns, ls%d, %d));%s sp_rec_lits(%d, ls%d);\n' % (i, i, nl, und, b, i)
 
     def call(c, i):
         if c == 'eq':
@@ -102,13 +105,20 @@ def pair_job(C, name, c1, c2, nl, newvars, maxcl, exprs_cap, str_cap, tmo=3000, 
               '  ok = pr.ok; observed = "%s(...) = " + show(ret1) + " then %s(...) = " + show(ret2) + ":" + pr.why;\n' % (CNAME[c1], CNAME[c2]) +
               '  required = "both literals keep the meaning of their formula in every model and no assignment of the existing variables is excluded";\n')
     rep = [C.NEW_VAR, C.NEW_CLAUSE, C.AMO_T + '_rec']
+    cc = {C.NEW_VAR: C.C_NEW_VAR, C.NEW_CLAUSE: C.C_NEW_CLAUSE, C.AMO_T + '_rec': C.UNREACHABLE}
+    if open_roots and 'conj' not in (c1, c2):
+        # no variable is decided at root level, so the cardinality constructs never take their root-true shortcut, the only
+        # place where they call new_conj: the call is replaced by a contract whose precondition is `false` (its reachability
+        # is thereby an obligation of this job)
+        rep.append(C.CONJ_T)
+        cc[C.CONJ_T] = C.UNREACHABLE
     return Job('sat.pair_' + name, T[c2], tus=C.TUS, contract=None, enforce=False, defines=d, unwind=unwind or d['XT_MAXLITS'] + 1,
                model_unwind=max(d['XT_MAXV'], d['XT_MAXCL'], exprs_cap, str_cap, (1 << newvars), 9) + 1, spec_headers=C.SPEC,
-               callee_contracts={C.NEW_VAR: C.C_NEW_VAR, C.NEW_CLAUSE: C.C_NEW_CLAUSE, C.AMO_T + '_rec': C.UNREACHABLE}, replace=rep,
+               callee_contracts=cc, replace=rep,
                call_alias={(C.AMO_T, C.AMO_T): C.AMO_T + '_rec'}, roots=[T[c1], T[c2]],
-               exceptions=True, caps=caps, abstract_fields=C.ABS, harness=harn, timeout=tmo, mem_gb=32, solver=C.SOLVER,
+               exceptions=True, caps=caps, abstract_fields=C.ABS, harness=harn, timeout=tmo, mem_gb=(32 if open_roots else 16), mem_est=(12 if open_roots else 4), solver=C.SOLVER,
                replay={'driver': 'sat', 'stanza': stanza},
-               bounded='histories of exactly two requests on a network of <= 2 existing variables (%s) with an empty cache; ' % ('all undecided' if open_roots else 'symbolic root values') +
+               bounded='histories of exactly two requests on a network of <= 2 existing variables (%s) with an empty cache; ' % ('all undecided, argument literals over them only' if open_roots else 'symbolic root values') +
                        'argument lists of <= %d symbolic literals' % nl)
 
 
@@ -117,6 +127,7 @@ def jobs(C, tier):
            pair_job(C, 'conj_conj', 'conj', 'conj', 2, 2, 6, 6, 6),
            pair_job(C, 'disj_disj', 'disj', 'disj', 2, 2, 6, 6, 6),
            pair_job(C, 'amo_exo', 'amo', 'exo', 2, 4, 10, 12, 6, open_roots=True, unwind=3),
-           pair_job(C, 'exo_amo', 'exo', 'amo', 2, 4, 10, 12, 6, open_roots=True, unwind=3),
-           pair_job(C, 'exo_exo', 'exo', 'exo', 2, 6, 16, 16, 6, open_roots=True, unwind=3)]
+           pair_job(C, 'exo_amo', 'exo', 'amo', 2, 4, 10, 12, 6, open_roots=True, unwind=3)]
+    out.append(pair_job(C, 'exo_exo', 'exo', 'exo', 2, 6, 16, 16, 6, open_roots=True, unwind=3))
+    out.append(pair_job(C, 'amo_amo', 'amo', 'amo', 2, 2, 6, 8, 6, open_roots=True, unwind=3))
     return out
